@@ -293,6 +293,12 @@ structure Env where
   yes : Bool                   -- the prompt is answered yes (`--yes`); `false` = declined
   failAt : Option Nat          -- this command appends to the trace, then fails
   killAt : Option Nat          -- the process is killed before this command starts
+  /-- the task runs as a DEPENDENCY next to a sibling that fails while this task's `status:` commands
+  are running (`task parent`, `parent: deps: [failing, this]`): the status commands are interrupted —
+  verdict "not up to date" whatever the files say —, the sources checker still runs (and writes), and
+  the cancelled context makes the first command fail before it starts.  `RunTask` goes through
+  `statusOnError` like for any failing command. -/
+  cancelled : Bool := false
 deriving Repr, DecidableEq
 
 inductive Exit | ok | failed | notUpToDate | cancelled | killed
@@ -317,7 +323,8 @@ def applyWrites (fs : FS) (ws : List (Path × Bytes)) (now : Nat) : FS :=
 def cmdLoop (e : Env) : List Cmd → Nat → FS → List Nat → FS × List Nat × LoopEnd
   | [], _, fs, ran => (fs, ran, .done)
   | c :: cs, k, fs, ran =>
-    if c.blocked fs then (fs, ran, .failed)
+    if e.cancelled then (fs, ran, .failed)
+    else if c.blocked fs then (fs, ran, .failed)
     else if e.killAt = some k then (fs, ran, .killed)
     else if e.failAt = some k then (fs, ran ++ [k], .failed)
     else cmdLoop e cs (k + 1) (applyWrites fs c.writes e.now) (ran ++ [k])
@@ -359,6 +366,10 @@ def listJson (cfg : Cfg) (H : Hashes) (pr : Proj) (now : Nat) : List Task → St
     let r := isUpToDate H pr t cfg.listDry now s
     listJson cfg H pr now ts r.1 (acc ++ [r.2])
 
+/-- the `status:` commands of this run are interrupted by the failure of a sibling (`Env.cancelled`):
+whatever the checkers say, the task is not reported up to date -/
+def interrupted (t : Task) (e : Env) : Bool := e.cancelled && !t.status.isEmpty
+
 def invoke (cfg : Cfg) (H : Hashes) (pr : Proj) (i : Nat) (m : Mode) (e : Env) (s : State) : State × Obs :=
   match m with
   | .list => (s, Obs.quiet)
@@ -381,7 +392,7 @@ def invoke (cfg : Cfg) (H : Hashes) (pr : Proj) (i : Nat) (m : Mode) (e : Env) (
     | none => (s, ⟨.failed, false, [], []⟩)
     | some t =>
       let r := isUpToDate H pr t false e.now s
-      if r.2 then (r.1, ⟨.ok, true, [], []⟩) else runBody cfg H pr i t false e r.1
+      if r.2 && !interrupted t e then (r.1, ⟨.ok, true, [], []⟩) else runBody cfg H pr i t false e r.1
   | .dry =>
     match pr.tasks[i]? with
     | none => (s, ⟨.failed, false, [], []⟩)
